@@ -44,7 +44,11 @@ var katInputs = []string{
 	"", "abc", "a", "message digest", inFox, in448, inMillionA,
 	"as", "asd", "asdf", inIsh, inFoxURL,
 	"hello", "hello, world", "19 Jan 2038 at 3:14:07 AM", inFox + ".",
+	// blank contents are contents like any other
+	" ", "\n", "\t", "\r\n", "  \n ",
 }
+
+var blankInputs = []string{"", " ", "\n", "\t", "\r\n", "  \n "}
 
 var algos = []*algo{
 	{
